@@ -6,7 +6,8 @@ import PdtVerif.Spec.Batching
 1. association-list dictionaries (`dget`/`dput`/`ddel`, `sortKey`);
 2. the fold invariant of `BucketBatchSampler.__iter__` (DESIGN appendix A7);
 3. the `Counter` / length prediction;
-4. collation (`sortDesc`, `padSequence`), `extractWindow`, bucket parameters.
+4. collation (`sortDesc`, `padSequence`), `extractWindow`, bucket parameters, torch's `BatchSampler`;
+5. sessions (several live iterators over one loader): an operation only touches what it names.
 -/
 namespace PdtVerif.Batching
 
@@ -1411,5 +1412,125 @@ theorem plain_len {n : Nat} (hn : 0 < n) (drop : Bool) (order : List Nat) :
   · simp [plainIter, plainLen, chunks, h2]
 
 end Plain
+
+/-! ## 8. sessions: several live iterators over one loader (`Session.step` / `Session.exec`) -/
+section Sessions
+
+/-- An operation other than `next k` leaves iterator `k` as it is. -/
+theorem Session.step_other (perm : Nat → List Nat) (op : IOp) (s : Session) (k : Nat) (x : LiveIter)
+    (hk : s.iters[k]? = some x) (hop : op ≠ .next k) :
+    (Session.step perm op s).2.iters[k]? = some x := by
+  have hlt : k < s.iters.length := by
+    rcases List.getElem?_eq_some_iff.mp hk with ⟨h, _⟩; exact h
+  cases op with
+  | serve => exact hk
+  | setEpoch e => exact hk
+  | len => exact hk
+  | peek e => exact hk
+  | newIter =>
+    show (s.iters ++ [_])[k]? = some x
+    rw [List.getElem?_append_left hlt]; exact hk
+  | next k' =>
+    have hne : k' ≠ k := fun h => hop (by rw [h])
+    unfold Session.step
+    simp only
+    split
+    · exact hk
+    · show (s.iters.set k' _)[k]? = some x
+      rw [List.getElem?_set_ne hne]; exact hk
+    · show (s.iters.set k' _)[k]? = some x
+      rw [List.getElem?_set_ne hne]; exact hk
+
+/-- `next` on a started iterator: hands out `nextOf v j`, moves its own cursor, nothing else. -/
+theorem Session.step_next_started (perm : Nat → List Nat) (s : Session) (k : Nat) (v : PassVal) (j : Nat)
+    (hk : s.iters[k]? = some ⟨some v, j⟩) :
+    Session.step perm (.next k) s
+      = (.batch (nextOf v j), { s with iters := s.iters.set k ⟨some v, j + 1⟩ }) := by
+  unfold Session.step
+  simp only [hk]
+
+/-- The first `next` of an iterator: the pass starts NOW (`Loader.serve` on the loader as it is). -/
+theorem Session.step_next_fresh (perm : Nat → List Nat) (s : Session) (k p : Nat)
+    (hk : s.iters[k]? = some ⟨none, p⟩) :
+    Session.step perm (.next k) s
+      = (.batch (nextOf (s.loader.serve perm).1 0),
+         ⟨(s.loader.serve perm).2, s.iters.set k ⟨some (s.loader.serve perm).1, 1⟩⟩) := by
+  unfold Session.step
+  simp only [hk]
+
+theorem deliveredBy_cons_self (k : Nat) (o : Out) (tr : List (IOp × Out)) :
+    deliveredBy k ((IOp.next k, o) :: tr) = o :: deliveredBy k tr := by
+  simp [deliveredBy]
+
+theorem deliveredBy_cons_other (k : Nat) (op : IOp) (o : Out) (tr : List (IOp × Out))
+    (h : op ≠ .next k) : deliveredBy k ((op, o) :: tr) = deliveredBy k tr := by
+  simp [deliveredBy, h]
+
+theorem deliveredBy_append (k : Nat) (a b : List (IOp × Out)) :
+    deliveredBy k (a ++ b) = deliveredBy k a ++ deliveredBy k b := by
+  simp [deliveredBy]
+
+theorem Session.exec_append (perm : Nat → List Nat) : ∀ (a b : List IOp) (s : Session),
+    Session.exec perm (a ++ b) s
+      = ((Session.exec perm a s).1 ++ (Session.exec perm b (Session.exec perm a s).2).1,
+         (Session.exec perm b (Session.exec perm a s).2).2) := by
+  intro a
+  induction a with
+  | nil => intro b s; rfl
+  | cons op a ih =>
+    intro b s
+    show ((op, _) :: (Session.exec perm (a ++ b) _).1, (Session.exec perm (a ++ b) _).2) = _
+    rw [ih]
+    rfl
+
+/-- No script touches the constructor arguments or the sampler's configuration. -/
+theorem Session.step_fixed (perm : Nat → List Nat) (op : IOp) (s : Session) :
+    (Session.step perm op s).2.loader.cfg = s.loader.cfg ∧
+    (Session.step perm op s).2.loader.sampler.cfg = s.loader.sampler.cfg := by
+  cases op with
+  | serve => exact ⟨rfl, rfl⟩
+  | setEpoch e => exact ⟨rfl, rfl⟩
+  | len => exact ⟨rfl, rfl⟩
+  | peek e => exact ⟨rfl, rfl⟩
+  | newIter => exact ⟨rfl, rfl⟩
+  | next k =>
+    unfold Session.step
+    simp only
+    split
+    · exact ⟨rfl, rfl⟩
+    · exact ⟨rfl, rfl⟩
+    · exact ⟨rfl, rfl⟩
+
+theorem Session.exec_fixed (perm : Nat → List Nat) : ∀ (ops : List IOp) (s : Session),
+    (Session.exec perm ops s).2.loader.cfg = s.loader.cfg ∧
+    (Session.exec perm ops s).2.loader.sampler.cfg = s.loader.sampler.cfg := by
+  intro ops
+  induction ops with
+  | nil => intro s; exact ⟨rfl, rfl⟩
+  | cons op ops ih =>
+    intro s
+    obtain ⟨a, b⟩ := Session.step_fixed perm op s
+    obtain ⟨c, d⟩ := ih (Session.step perm op s).2
+    exact ⟨c.trans a, d.trans b⟩
+
+/-- An iterator whose first batch was not requested yet stays like that (and delivers nothing)
+as long as the script does not call `next` on it. -/
+theorem Session.exec_fresh (perm : Nat → List Nat) : ∀ (ops : List IOp) (s : Session) (k : Nat)
+    (x : LiveIter), s.iters[k]? = some x → IOp.next k ∉ ops →
+    deliveredBy k (Session.exec perm ops s).1 = [] ∧ (Session.exec perm ops s).2.iters[k]? = some x := by
+  intro ops
+  induction ops with
+  | nil => intro s k x hk _; exact ⟨rfl, hk⟩
+  | cons op ops ih =>
+    intro s k x hk hn
+    have hop : op ≠ .next k := fun h => hn (by rw [h]; exact List.mem_cons_self)
+    have hn' : IOp.next k ∉ ops := fun h => hn (List.mem_cons_of_mem _ h)
+    obtain ⟨i1, i2⟩ := ih (Session.step perm op s).2 k x (Session.step_other perm op s k x hk hop) hn'
+    refine ⟨?_, i2⟩
+    show deliveredBy k ((op, (Session.step perm op s).1)
+        :: (Session.exec perm ops (Session.step perm op s).2).1) = _
+    rw [deliveredBy_cons_other k op _ _ hop, i1]
+
+end Sessions
 
 end PdtVerif.Batching
